@@ -438,12 +438,77 @@ def run_check(acc, n):
     acc.sample({"decorator": "check", "specs": ["[length]", None], "values": ["5 second", "7"], "expected": "DimensionalityError"})
 
 
+# derived-dimension specs: (spec, (L, M, T) exponents written by hand from the SI definitions)
+DERIVED_SPECS = [
+    ("[area]", (2, 0, 0)), ("[volume]", (3, 0, 0)), ("1/[volume]", (-3, 0, 0)), ("[mass]/[volume]", (-3, 1, 0)), ("[density]", (-3, 1, 0)),
+    ("[velocity]", (1, 0, -1)), ("[velocity]**2", (2, 0, -2)), ("[pressure]", (-1, 1, -2)), ("[force]/[area]", (-1, 1, -2)),
+    ("[energy]", (2, 1, -2)), ("[energy]/[volume]", (-1, 1, -2)), ("[length]**2", (2, 0, 0)), ("[frequency]", (0, 0, -1)), ("1/[time]", (0, 0, -1)),
+    ("[acceleration]*[mass]", (1, 1, -2)), ("[power]/[area]", (0, 1, -3)), ("[length]", (1, 0, 0)),
+]
+DERIVED_VALUES = [
+    ("2 meter**2", (2, 0, 0)), ("5 liter", (3, 0, 0)), ("5 1/liter", (-3, 0, 0)), ("3 kilogram/meter**3", (-3, 1, 0)), ("3 meter/second", (1, 0, -1)),
+    ("4 meter**2/second**2", (2, 0, -2)), ("2 pascal", (-1, 1, -2)), ("6 joule", (2, 1, -2)), ("8 hertz", (0, 0, -1)), ("9 newton", (1, 1, -2)),
+    ("1 watt/meter**2", (0, 1, -3)), ("2 meter", (1, 0, 0)), ("7 gram/liter", (-3, 1, 0)), ("3 bar", (-1, 1, -2)),
+]
+
+
+def run_check_derived(acc):
+    """dimension specs naming DERIVED dimensions, alone or inside an expression with an exponent of their own: the declared
+    dimensionality is the product of the base dimensions each name stands for, raised to the exponent it carries"""
+    ureg = regs.default("float", fresh=True)
+    vals = [(v, ureg.Quantity(v), d) for v, d in DERIVED_VALUES]
+    for spec, sd in DERIVED_SPECS:
+        record = []
+        f = make_func(1, 0, record)
+        o = call(lambda: ureg.check(spec)(f))
+        if o[0] != "ok":
+            acc.violation(["check", "decoration", "raises-on-valid-specs", o[1]], {"specs": [spec]}, "a wrapper", o[1])
+            continue
+        w = o[1]
+        for v, q, vd in vals:
+            acc.ev()
+            acc.nt(("check-derived", spec, v))
+            del record[:]
+            got = call(lambda: w(q))
+            meth = call(lambda: q.check(spec))
+            case = {"specs": [spec], "values": [v]}
+            if sd != vd:
+                if got != ("exc", "DimensionalityError"):
+                    acc.violation(["check", "errors", "wrong-dimension-not-refused-with-DimensionalityError", "derived"], case, "DimensionalityError", repr(got)[:120])
+                if meth != ("ok", False):
+                    acc.violation(["check", "method", "Quantity.check-disagrees-with-the-dimension-algebra", "derived"], case, False, repr(meth)[:120])
+                acc.outcome("refused")
+            else:
+                if got != ("ok", 42) or len(record) != 1 or record[0][0] is not q:
+                    acc.violation(["check", "call", "correct-dimensions-refused-or-function-not-called", "derived"], case, 42, repr(got)[:120])
+                if meth != ("ok", True):
+                    acc.violation(["check", "method", "Quantity.check-disagrees-with-the-dimension-algebra", "derived"], case, True, repr(meth)[:120])
+                acc.outcome("accepted")
+    # two parameters, the derived spec on either side of a base one
+    for (s0, d0), (s1, d1) in itertools.product(DERIVED_SPECS[:8], repeat=2):
+        record = []
+        f = make_func(2, 0, record)
+        o = call(lambda: ureg.check(s0, s1)(f))
+        if o[0] != "ok":
+            acc.violation(["check", "decoration", "raises-on-valid-specs", o[1]], {"specs": [s0, s1]}, "a wrapper", o[1])
+            continue
+        w = o[1]
+        for (v0, q0, vd0), (v1, q1, vd1) in itertools.product(vals[:7], repeat=2):
+            acc.ev()
+            acc.nt(("check-derived2", s0, s1, v0, v1))
+            got = call(lambda: w(q0, q1))
+            want = ("ok", 42) if (d0 == vd0 and d1 == vd1) else ("exc", "DimensionalityError")
+            if got != want:
+                acc.violation(["check", "errors" if want[0] == "exc" else "call", "wrong-dimension-not-refused-with-DimensionalityError" if want[0] == "exc" else "correct-dimensions-refused-or-function-not-called", "derived"], {"specs": [s0, s1], "values": [v0, v1]}, want[1], repr(got)[:120])
+    acc.sample({"decorator": "check", "specs": ["[mass]/[volume]"], "values": ["3 kilogram/meter**3"], "expected": "called"})
+
+
 def shards(tier, seed):
     out = [("wraps", 1, 0, 1), ("wraps", 2, 0, 1)]
     out += [("wraps", 3, b, 12) for b in range(12)]
     if tier == "thorough":
         out += [("wraps", 4, b, 16) for b in range(16)]
-    out += [("returns",), ("check", 1), ("check", 2), ("check", 3), ("arrays",)]
+    out += [("returns",), ("check", 1), ("check", 2), ("check", 3), ("arrays",), ("check-derived",)]
     return out
 
 
@@ -457,6 +522,8 @@ def run_shard(acc, shard, tier, seed):
         run_wraps_arrays(acc)
     elif k == "check":
         run_check(acc, shard[1])
+    elif k == "check-derived":
+        run_check_derived(acc)
     else:
         raise core.HarnessError(str(shard))
 
@@ -464,7 +531,9 @@ def run_shard(acc, shard, tier, seed):
 def replay(rec):
     site, case = rec["site"], rec["case"]
     acc = core.Acc(PROPERTY)
-    if site[0] == "check":
+    if site[0] == "check" and site[-1] == "derived":
+        run_check_derived(acc)
+    elif site[0] == "check":
         for n in (1, 2, 3):
             run_check(acc, n)
         run_returns(acc)
